@@ -43,7 +43,8 @@ let register () =
       | [tags] ->
         let tags = parse_tags tags in
         let raws = Stdlib.List.map (fun (t, ts, p) -> FlvTag.pack_tag t ts p) tags in
-        let file = FlvTag.flv_file raws in
+        (* the Go side writes over a file that already holds junk longer than the recording *)
+        let file = FlvTag.flv_record (bytes_of_token "abababab") raws in
         let back = FlvTag.flv_file_read file in
         Printf.sprintf "%s %d %s" (token_of_bytes file) (Stdlib.List.length back)
           (if back = [] then "-" else String.concat "," (Stdlib.List.map show_tag back))
